@@ -117,9 +117,11 @@ pub fn parse_san_move(board: &Board, mv: &str) -> Result<Move, MoveParseError> {
     let src_file: Option<File>;
     let piece;
     let promotion;
+    let castles;
 
     if chars.next_if_eq(&'O').is_some() {
         // Castles
+        castles = true;
 
         chars.next_if_eq(&'-').ok_or(MoveParseError)?;
         chars.next_if_eq(&'O').ok_or(MoveParseError)?;
@@ -141,6 +143,7 @@ pub fn parse_san_move(board: &Board, mv: &str) -> Result<Move, MoveParseError> {
         promotion = None;
     } else {
         // Non-castles
+        castles = false;
 
         promotion = chars
             .peek()
@@ -205,6 +208,10 @@ pub fn parse_san_move(board: &Board, mv: &str) -> Result<Move, MoveParseError> {
         mvs.to &= dst.bitboard();
         for m in mvs {
             if m.promotion != promotion {
+                continue;
+            }
+            if !castles && board.colors(board.side_to_move()).has(m.to) {
+                // King-takes-rook moves are castles; they are only written as O-O or O-O-O
                 continue;
             }
             if mv.is_some() {
